@@ -597,6 +597,33 @@ func c15EndpointInputs(e *Env, ctrlW, ctrlR, dataW []byte) []c15Input {
 			return "records"
 		}
 	}
+	// offsets of the chunk-size field of every FileBegin record in the recorded
+	// control stream: a mutation that overlaps one of them is the known
+	// peer-chosen-chunk-size class and is named after the field, not after the
+	// kind of byte poke that happened to hit it
+	var csFields []int
+	{
+		ms := vk.NewMemStream(ctrlW[hdrLen:])
+		for ms.Remaining() > 0 {
+			start := hdrLen + (len(ctrlW) - hdrLen - ms.Remaining())
+			typ, msg, err := transfer.VerifCoreReadControlMessage(ms)
+			if err != nil {
+				break
+			}
+			if typ == transfer.VerifTypeFileBegin {
+				fb := msg.(transfer.FileBegin)
+				csFields = append(csFields, start+1+2+len(fb.RelPath)+8)
+			}
+		}
+	}
+	overlapsChunkSize := func(off, width int) bool {
+		for _, f := range csFields {
+			if off < f+4 && off+width > f {
+				return true
+			}
+		}
+		return false
+	}
 	step := e.Pick(5, 1)
 	mut := func(target string, valid []byte, data []byte, stageOf func(int) string, isData bool) {
 		for off := r.Intn(step); off < len(valid); off += step {
@@ -605,6 +632,14 @@ func c15EndpointInputs(e *Env, ctrlW, ctrlR, dataW []byte) []c15Input {
 				if isData {
 					add(target, "data:"+class, ctrlW, b, false)
 				} else {
+					width := 1
+					if strings.HasPrefix(class, "u32=") {
+						width = 4
+					}
+					if target == "ep-recv" && class != "trunc" && overlapsChunkSize(off, width) {
+						add(target, "records:field:filebegin-chunk-size:"+class, b, data, false)
+						return
+					}
 					add(target, st+":"+class, b, data, false)
 				}
 			}
